@@ -151,6 +151,47 @@ def Scr.feed (r : Scr) : Str → Scr
   | [] => r
   | b :: bs => (r.byte b).feed bs
 
+/-! ### a terminal WITH a right margin
+
+The same terminal in a window `w` columns wide, as the client sees it (immediate autowrap; the harness carries an
+independently written emulator of this machine, fed with the bytes the real shell sends, and the two are compared on every
+run as `P scr` lines): a glyph written in the last column moves the cursor to column 0 of the next row; BS and `ESC [ D`
+stop at column 0 (no way back to the row above); `ESC [ C` stops at the last column; CR, LF as before. `up` counts the rows
+the cursor has left behind by wrapping or LF. -/
+
+structure ScrW where
+  w : Nat := 80
+  row : Str := []
+  col : Nat := 0
+  esc : Nat := 0
+  up : Nat := 0
+deriving DecidableEq, Repr
+
+def ScrW.byte (r : ScrW) (b : UInt8) : ScrW :=
+  if r.esc = 0 then
+    if b = 8 then { r with col := r.col - 1 }
+    else if b = 27 then { r with esc := 1 }
+    else if b = 13 then { r with col := 0 }
+    else if b = 10 then { r with row := [], up := r.up + 1 }
+    else
+      let row' := (r.row ++ List.replicate (r.col - r.row.length) 32).take r.col ++ b :: r.row.drop (r.col + 1)
+      if r.col + 1 ≥ r.w then { r with row := [], col := 0, up := r.up + 1 }
+      else { r with row := row', col := r.col + 1 }
+  else if r.esc = 1 then
+    (if b = 91 then { r with esc := 2 } else { r with esc := 0 })
+  else
+    if b = 67 then { r with esc := 0, col := if r.col + 1 < r.w then r.col + 1 else r.col }
+    else if b = 68 then { r with esc := 0, col := r.col - 1 }
+    else if 64 ≤ b ∧ b ≤ 126 then { r with esc := 0 }
+    else r
+
+def ScrW.feed (r : ScrW) : Str → ScrW
+  | [] => r
+  | b :: bs => (r.byte b).feed bs
+
+/-- the row without trailing blanks (what `P scr` prints) -/
+def stripBlanks (row : Str) : Str := (row.reverse.dropWhile (· = 32)).reverse
+
 /-- a glyph: what the key scanner calls printable is one (`C13_scanner_chars_plain`) -/
 def plain (c : UInt8) : Bool := 32 ≤ c && c ≤ 126
 
@@ -167,9 +208,17 @@ def widest (cfg : Cfg) (ns : Nodes) (feed : Feed) : St → List Key → Nat
 
 /-! ### sessions -/
 
+/-- a loop pass has something to do for slot `j`: an exit task of its current session or a handler's disconnect is queued,
+a descriptor of a finished connection awaits its `close`, its socket has bytes queued or its client closed its end -/
+def passTouches (w : World) (j : Nat) : Bool :=
+  w.exits.contains (j, (w.slot j).gen) || (w.slot j).ending || (w.slot j).zfd != 0
+
+def sockTouches (w : World) (j : Nat) : Bool :=
+  (w.slot j).fstate == 1 && (!(w.slot j).kq.isEmpty || w.gone.contains j)
+
 /-- the session slots an op may change: its own slot, and for a loop pass exactly the slots whose
 CURRENT session (slot, generation = the session token) has an exit task queued, or whose disconnect was
-requested by a command handler (`endSession()`) -/
+requested by a command handler (`endSession()`), or whose socket has something to report -/
 def touches (w : World) : Op → Nat → Bool
   | .openS _, j => j == w.cur
   | .recv _, j => j == w.cur
@@ -178,10 +227,11 @@ def touches (w : World) : Op → Nat → Bool
   | .xconn k, j => j == k
   | .xrecv k _, j => j == k
   | .xdisc k, j => j == k
-  | .pass, j => w.exits.contains (j, (w.slot j).gen) || (w.slot j).ending || w.gone.contains j
-  | .sstart, j => j == 7 || w.exits.contains (j, (w.slot j).gen) || (w.slot j).ending
-  | .srecv _, j => j == 7 || w.exits.contains (j, (w.slot j).gen) || (w.slot j).ending
-  | .sstop, j => j == 7 || w.exits.contains (j, (w.slot j).gen) || (w.slot j).ending
+  | .xsock k _ _ _, j => j == k
+  | .pass, j => passTouches w j || sockTouches w j
+  | .sstart, j => j == 7 || passTouches w j
+  | .srecv _, j => j == 7 || passTouches w j
+  | .sstop, j => j == 7 || passTouches w j
   | .teardown, _ => true
   | .passdown, _ => true
   | _, _ => false
